@@ -231,7 +231,8 @@ def driver_configs(tier, seed):
         for ad in (None, "forward", "reverse", "2rdm"):
             for orot in (True, False):
                 for sr in (True, False):
-                    if not thorough and not ((orot and sr) or (ad in ("forward", "reverse") and not orot and not sr)):
+                    if not thorough and not ((orot and sr) or (ad in ("forward", "reverse") and not orot and not sr)
+                                             or (ad == "forward" and orot != sr)):
                         continue
                     out.append(dict(kind="driver", wt=wt, ad_mode=ad, orbital_rotation=orot, do_sr=sr, seed=seed, tier=tier))
     return out
@@ -331,26 +332,37 @@ def run(ctx):
                 ctx.guard("cross_process_digests_compared", 1)
                 if k in main and main[k] != v:
                     ctx.violation("sampler/not-bit-reproducible-across-processes", dict(what="xproc", key=k), dict(a=main[k], b=v))
-    # driver: same block structure => same energies across ad modes (float32 storage in the driver)
+    # driver: the options select the entry point; with a converged trial at zero coupling all cells with
+    # reconfiguration (any orbital_rotation, any ad_mode incl. None -> plain sampler) must report the same block
+    # energies, all AD cells without reconfiguration likewise, and the two groups must differ (else the comparison
+    # is vacuous).  (float32 storage in the driver.)
     groups = {}
     for k, out in coll.driver.items():
         wt, ad, orot, sr = k.split("|")
         if ad == "2rdm":
             continue
         if ad == "None" and sr != "True":
-            continue  # without AD the driver always uses the plain sampler (with reconfiguration): other block structure
-        groups.setdefault((wt, orot, sr), []).append((ad, out))
+            continue  # without AD the driver always uses the plain sampler (with reconfiguration)
+        groups.setdefault((wt, sr), []).append(("%s,orot=%s" % (ad, orot), out))
     for g, lst in groups.items():
-        for ad, out in lst[1:]:
+        for lab, out in lst[1:]:
             for seed in out:
                 if seed in lst[0][1]:
                     a, b = np.array(lst[0][1][seed][1]), np.array(out[seed][1])
                     ctx.guard("driver_pairs_compared", 1)
                     if a.shape != b.shape or not np.allclose(a, b, rtol=0, atol=2e-6):
-                        ctx.violation("driver/%s/ad-mode-changes-energy" % g[0], dict(what="driver-pair", group=list(g), a=lst[0][0], b=ad, run_seed=int(seed)),
+                        ctx.violation("driver/%s/do_sr=%s/options-change-energy" % g, dict(what="driver-pair", group=list(g), a=lst[0][0], b=lab, run_seed=int(seed)),
                                       dict(a=a, b=b))
+    for wt in ("restricted", "unrestricted"):
+        if (wt, "True") in groups and (wt, "False") in groups:
+            for seed in groups[(wt, "True")][0][1]:
+                if seed in groups[(wt, "False")][0][1]:
+                    a = np.array(groups[(wt, "True")][0][1][seed][1])
+                    b = np.array(groups[(wt, "False")][0][1][seed][1])
+                    if a.shape == b.shape and np.abs(a - b).max() > 1e-5:
+                        ctx.guard("driver_sr_groups_differ", 1)
     ctx.require_guard("non_initial_state_pairs", "non_initial_state_glue_moved_walkers", "cells_callable", "estimator_recomputed", "capped_samples", "streams_with_uneven_weights",
-                      "cross_process_digests_compared", "driver_cells_callable", "driver_pairs_compared")
+                      "cross_process_digests_compared", "driver_cells_callable", "driver_pairs_compared", "driver_sr_groups_differ")
 
 
 def replay(case):
